@@ -1,7 +1,8 @@
 ---- MODULE MC_TrueTypeCMap ----
 EXTENDS TrueTypeCMap
 CONSTANTS D4,      \* code domain of the format 4 / format 0 maps
-          G4       \* glyph values (0 = not mapped)
+          G4,      \* glyph values (0 = not mapped)
+          G2, DL2  \* format 2: glyph values and idDelta values
 \* format 4: every map D4 -> G4 in five styles
 Maps4 == [D4 -> G4]
 Cases4 == {Enc4(M, st) : M \in Maps4, st \in {"delta", "single", "range0", "ranged", "mixed"}}
@@ -9,7 +10,7 @@ Cases4 == {Enc4(M, st) : M \in Maps4, st \in {"delta", "single", "range0", "rang
 Cases0 == {Enc0(M) : M \in [{c \in D4 : c < 256} -> G4]}
 \* format 2: single-byte codes 41 42 and two-byte codes 8140 8141 8240 8241 (two high bytes whose rows may coincide)
 D2 == {65, 66, 33088, 33089, 33344, 33345}
-Cases2 == {Enc2(M, d, sh) : M \in [D2 -> {0, 1, 2}], d \in {0, 5, -2}, sh \in BOOLEAN}
+Cases2 == {Enc2(M, d, sh) : M \in [D2 -> G2], d \in DL2, sh \in BOOLEAN}
 \* fonts: with/without cmap table; up to 3 subtable records over these (platform, encoding, format, content)
 PA == {<<65, 1>>}
 PB == {<<66, 2>>, <<65, 3>>}
